@@ -209,6 +209,11 @@ pub fn gcd(a: i64, b: i64) -> i64 {
 /// reduce and bring into (-1,1]
 pub fn norm_phase(p: (i64, i64)) -> (i64, i64) {
     let (mut n, mut d) = p;
+    if d == 0 {
+        // no generator produces it; a total function all the same (raw values always map to a
+        // well-formed case)
+        return (0, 1);
+    }
     if d < 0 {
         n = -n;
         d = -d;
